@@ -1,5 +1,5 @@
 """C08 — packing is safe under a crash at any point, and a pack that cannot complete changes nothing.
-(Thread schedules of packer + committers: see LEVEL_NOTE / DESIGN section 10.)"""
+A third of the cases run a packer thread among committer/reader threads under the deterministic scheduler."""
 import hashlib
 import os
 
@@ -12,7 +12,8 @@ from vlib.driver import Outcome, newdir
 PROPERTY = 'C08'
 LEVEL = 'fault_enumeration'
 TECH = ('crash-point and fault-point enumeration over the recorded file operations of pack (writes, renames, removals on data/.pack/'
-        '.old/.index files) for generated histories; reopen / continue and compare with an unpacked twin')
+        '.old/.index files) for generated histories; reopen / continue and compare with an unpacked twin; generated packer+committer+reader '
+        'threads x generated schedules under a deterministic scheduler with history oracles')
 RULE = ('a case = generated graph history (as C07) + pack time + gc + mode; mode crash: every prefix of the file operations the pack '
         'issued on Data.fs, .pack, .old, .index, .index_tmp (renames/removals single points, sampled torn cuts of .pack writes) '
         'is materialised as a directory and reopened read-write; oracle: opening succeeds and the protected region of C07 equals '
@@ -20,11 +21,17 @@ RULE = ('a case = generated graph history (as C07) + pack time + gc + mode; mode
         'further transaction commits; mode fault: each file operation of the pack fails in turn (OSError): pack must raise, the '
         'full battery equals the history model (unchanged), the commit lock is free, the next transaction and the next pack work; '
         'a second pack while one is marked in progress is refused; evaluations = crash images + fault points; non-trivial = crash '
-        'image taken after the first .pack write / fault after >= 1 copied transaction; distinct by (directory image hash | '
-        'case hash, fault index)')
+        'image taken after the first .pack write / fault after >= 1 copied transaction; mode threads (1/3 of the cases): a packer '
+        'thread (pack time now, or 0.5/1.5 s back), optionally a second packer, and 1-3 committer/reader threads on one FileStorage '
+        'with superseded revisions, scheduled by vlib/sched.py (yield points: lock operations, file operations, optionally every '
+        'line of pack/copyOne/copyRest/tpc_vote/tpc_finish); oracle: no deadlock, no exception other than ConflictError, every '
+        'commit that returned is in the storage and in the reopened packed file unless its revisions were superseded not later '
+        'than the pack time, derived-from chain intact, readers saw consistent snapshots, the second pack is refused or '
+        'completes; non-trivial thread case = a commit returned between pack start and pack end; distinct by (directory image '
+        'hash | case hash, fault index)')
 ASSUMPTIONS = ['crash model: prefix of the recorded operations across the five files in issue order; renames/removes atomic',
-               'thread schedules (packer with concurrent committers/readers) are NOT explored: no deterministic scheduler was '
-               'built; concurrency is covered only as far as commits before/after the pack go']
+               'thread cases: preemption only at the scheduler\'s yield points (ZODB lock/condition operations, storage file '
+               'operations, lines of the watched pack/commit functions); undo threads are not generated; schedules are sampled']
 BUDGET = {'quick': {'examples': 2500, 'workers': 8},
           'thorough': {'examples': 25000, 'workers': 16}}
 
@@ -413,5 +420,6 @@ LEVEL_TEXT = ('For generated histories every prefix of the file operations a pac
               '.pack writes) is reopened and compared with an unpacked twin on the region the statement protects; every file '
               'operation is also failed in turn and the storage must stay unchanged and usable. Exhaustive over operation '
               'boundaries per generated history.')
-LEVEL_NOTE = ('Trusted: rawio recording/fault layer; C07\'s protected-region comparison. NOT covered: thread schedules of a packer with '
-              'concurrent committers, undoers and readers (first quantifier of the property) - see DESIGN section 10.')
+LEVEL_NOTE = ('Trusted: rawio recording/fault layer; C07\'s protected-region comparison; vlib/sched.py and the event-log oracles for the '
+              'thread cases. Crash and fault points are enumerated; thread schedules (packer with committers and readers) are sampled; '
+              'crash points inside a concurrent schedule and undoer threads are not generated.')
